@@ -84,7 +84,12 @@ def case(draw, tier):
     hist = [draw(sim_case(SCHEDS, "quick", max_pipes=5)) for _ in range(draw(st.integers(1, 3)))]
     ha = draw(st.sampled_from([0, 1, 2, 3]))
     hb = draw(st.sampled_from([4, 5, 6, 12345, 7]))
-    return {"kind": "paired", "target": target, "history": hist, "hash_a": ha, "hash_b": hb}
+    case_ = {"kind": "paired", "target": target, "history": hist, "hash_a": ha, "hash_b": hb}
+    if target.get("workload") in ("generator", "trace") and draw(st.booleans()):
+        case_["omit"] = ["random_seed", "cpu_io_ratio", "num_pools"][: draw(st.integers(1, 3))]
+        if "num_pools" in case_["omit"] and target["params"]["scheduler_algo"] == "priority-pool":
+            case_["omit"].remove("num_pools")
+    return case_
 
 
 def strategy(tier):
@@ -164,8 +169,12 @@ def run_case(spec):
         return out
     target = spec["target"]
     # process 1 (hash seed a): the target twice in one process; process 2 (hash seed b): the target after a history
+    if spec.get("omit"):
+        # the target leaves some parameters to their defaults
+        target = dict(target)
+        target["params"] = {k: v for k, v in target["params"].items() if k not in spec["omit"]}
     c = child({"target": target, "repeat": 2}, spec["hash_a"])
-    b = child({"history": spec["history"], "target": target, "repeat": 1}, spec["hash_b"])
+    b = child({"history": spec["history"], "target": target, "repeat": 1, "defaults_idiom": bool(spec.get("omit"))}, spec["hash_b"])
     a = [c[0]]
     out.label("sched_" + target["params"]["scheduler_algo"])
     log = a[0]
